@@ -237,13 +237,19 @@ class Model:
                 self.pulled_up[g.qname] = base_def.qname
         from .localnames import restore_names  # late import
         self.renamed_back = restore_names(self)
-        for f in self.functions.values():
-            self._devirtualise_locals(f)
         new_helpers = {q: f for q, f in self.functions.items() if short(q) not in known and not f.name.startswith("__")}
         self.absorbed = {}
         self.inlined_into = {}
-        if not new_helpers:
-            return
+        if new_helpers:
+            self._inline_new_helpers(new_helpers)
+        # idioms and small constant tables (sa/idioms.py), then calls through locals bound to (a choice of) bound methods
+        from .idioms import canonicalise
+        self.canonicalised = [q for q, f in self.functions.items() if canonicalise(self, f)]
+        for f in self.functions.values():
+            self._devirtualise_locals(f)
+
+    def _inline_new_helpers(self, new_helpers: dict) -> None:
+        from .inline import Inliner
 
         def want(h: FuncInfo) -> bool:
             return h.qname in new_helpers
